@@ -44,7 +44,8 @@ impl<'n> TryFromNode<'n> for ComplexProps {
                 result = read_complex_content_node(element_name, n, doc)?;
             }
 
-            if n.tag_name().name() == "sequence" {
+            // the content model is a sequence, or directly an xs:all (like a sequence, in any order) or an xs:choice
+            if matches!(n.tag_name().name(), "sequence" | "all" | "choice") {
                 result = read_sequence_node(element_name, n, doc)?;
             }
 
@@ -166,6 +167,12 @@ fn import_extension_fields(node: &mut Node, doc: &mut RustDocument, base_fields:
         for n in base.children().filter(Node::is_element) {
             if n.tag_name().name() == "sequence" {
                 import_sequence_node_fields(&mut base, doc, base_fields)?;
+            }
+
+            // an xs:all or xs:choice directly under the extension
+            if matches!(n.tag_name().name(), "all" | "choice") {
+                let mut particle = n;
+                import_sequence_node_fields(&mut particle, doc, base_fields)?;
             }
 
             // attributes declared by the extension itself
